@@ -542,7 +542,7 @@ func main() {
 		runCase(r, genCase(r, wit.Index), scratch)
 		r.Finish()
 	}
-	n := r.Pick(2500, 120000)
+	n := r.Pick(2500, 20000)
 	vrun.Parallel(n, 0, func(i int) { runCase(r, genCase(r, i), scratch) })
 	r.Require("successful_extractions", 200)
 	r.Require("over_limit_archives_refused", 300)
